@@ -99,8 +99,36 @@ def http_cases(ctx, work):
                     fired = any(e["applied"] != "Normal" for e in log)
                     case = {"mode": "fail", "fired": fired, "optype": "fetch", "outcome": outcome,
                             "ret": {"has": outcome["st"] == "returned", "data": data},
-                            "expRet": loc["data"], "targets": [], "others": []}
+                            "expRet": loc["data"], "targets": [], "others": [], "gzlayer": False, "failkind": "http"}
                     meta = {"scenario": "http." + kind + ".fetch", "plan": {"k": k, "mode": "fail", "err": b},
+                            "calls": [[e["m"], e["path"].split("/")[-1]] for e in log], "exc": cls,
+                            "target_read": []}
+                    cases.append((case, meta))
+        # persistent HTTP error statuses (a retrying client sees the same answer every time)
+        for kind, d, sizes, pos, nreq in targets:
+            coords = sd.coords_of(pos, 4, sizes)
+            loc = hd.local_read(d, "chunk", coords)
+            url = server.url(os.path.relpath(d, work))
+            from neuroglancer_scripts import accessor
+            for code in (400, 401, 403, 404, 408, 429, 500, 501, 502, 503, 504):
+                for tgt in ("chunk", "info"):
+                    server.arm({"all": "Status%d" % code})
+                    outcome = {"st": "returned", "osErr": False, "dataAccess": False}
+                    data, cls = [], ""
+                    try:
+                        acc = accessor.get_accessor_for_url(url)
+                        data = list(acc.fetch_chunk(sd.KEY, coords) if tgt == "chunk" else acc.fetch_file("info"))
+                    except Exception as e:
+                        cls = type(e).__name__
+                        outcome = {"st": "raised", "osErr": isinstance(e, OSError),
+                                   "dataAccess": isinstance(e, DataAccessError)}
+                    log = server.log()
+                    case = {"mode": "fail", "fired": True, "optype": "fetch", "outcome": outcome,
+                            "ret": {"has": outcome["st"] == "returned", "data": data},
+                            "expRet": [-1],          # nothing can legitimately be returned
+                            "targets": [], "others": [], "gzlayer": False, "failkind": "http"}
+                    meta = {"scenario": "http.%s.fetch_%s.persistent" % (kind, tgt),
+                            "plan": {"k": 0, "mode": "fail", "err": "Status%d" % code},
                             "calls": [[e["m"], e["path"].split("/")[-1]] for e in log], "exc": cls,
                             "target_read": []}
                     cases.append((case, meta))
@@ -123,7 +151,7 @@ def http_cases(ctx, work):
                 log = server.log()
                 case = {"mode": "fail", "fired": any(e["applied"] != "Normal" for e in log),
                         "optype": "exists", "outcome": outcome, "ret": {"has": bool(ret), "data": ret},
-                        "expRet": [1], "targets": [], "others": []}
+                        "expRet": [1], "targets": [], "others": [], "gzlayer": False, "failkind": "http"}
                 meta = {"scenario": "http." + kind + ".exists", "plan": {"k": 0, "mode": "fail", "err": b},
                         "calls": [[e["m"], e["path"].split("/")[-1]] for e in log], "exc": cls, "target_read": []}
                 cases.append((case, meta))
